@@ -218,7 +218,7 @@ pub fn run(report: &Report) -> i32 {
         "c02",
         "proptest-generated event-driven transfers over finite fault prefixes (drop/dup/delay/ecn per datagram) x all transport configs x driver schedules; oracle: handshake + every planned stream complete within the computed virtual-time bound, no connection loss; non-trivial = a datagram was dropped and a CRYPTO/STREAM retransmission was needed, or a flow-control/stream-count stall occurred",
         || arb_xfer(gen()),
-        report.cases(6000, 300_000),
+        report.cases(30_000, 1_200_000),
         case,
     );
     report.finish("generated-input search (proptest) with a bounded-liveness oracle")
